@@ -295,6 +295,7 @@ def run(chk):
             return False, "two signals share a receiver: %s" % sorted(recvs), [], sites[0][1].loc
         return True, "", [c.loc for b, c in sites]
     chk.ob("C12.R3:one-receiver-per-signal", "each of the three signals has its own receiver and transport (an outage of one does not stop the others)", r3)
+    batcher.workers_run_to_completion(chk, P, "C12")
 
     def r4():
         key = None
@@ -441,7 +442,6 @@ def run(chk):
              "a native root certificate the TLS library cannot parse is skipped; the handshake then fails (and is reported) only if no usable root remains"},
         70)
     # a failed request is sent again only if the channel's retry loop hands the remainder back: the retry machinery of the channel is part of this property's mechanism
-    from . import batcher
     batcher.bounded_retry(chk, P, "C12.batcher")
     batcher.retry_remainder(chk, P, "C12.batcher")
     batcher.batch_error_helpers(chk, P, "C12.batcher")
